@@ -300,6 +300,8 @@ func (r *Run) Finish() int {
 	}
 	b, _ := json.MarshalIndent(ev, "", " ")
 	os.WriteFile(filepath.Join(evDir, r.Prop+".json"), b, 0o644)
+	// a copy per tier, so that the evidence of the last thorough run survives later quick runs
+	os.WriteFile(filepath.Join(evDir, r.Prop+"."+r.Tier+".json"), b, 0o644)
 
 	fmt.Printf("%s tier=%s seed=%d evaluations=%d distinct_nontrivial=%d violations=%d known=%d inconclusive=%d wall=%.1fs\n",
 		r.Prop, r.Tier, r.Seed, r.Evaluations, len(r.shapes), newV, len(r.Violations)-newV, len(r.Inconclusive), time.Since(r.Start).Seconds())
